@@ -108,9 +108,9 @@ def stLine (m : Receiver.St) : String :=
 
 def fmtOut : Receiver.Out → String
   | .abort => s!"ABORT:{Gen.protocolViolation}"
-  | .hback info => s!"HBACK:{info}"
-  | .resp rsn r => s!"RECONFIG:resp/{rsn.toNat}/{r}"
-  | .error => s!"ERROR:{Gen.unrecognizedChunkType}"
+  | .ctl (.hback info) => s!"HBACK:{info}"
+  | .ctl (.resp rsn r) => s!"RECONFIG:resp/{rsn.toNat}/{r}"
+  | .ctl .error => s!"ERROR:{Gen.unrecognizedChunkType}"
   | .sack cum arw gaps dups =>
     s!"SACK:{cum.toNat}:{arw.toNat}:{fmtGaps gaps}:{if dups.isEmpty then "-" else joinWith "," (dups.map fun t => toString t.toNat)}"
 
